@@ -47,6 +47,10 @@ func (e *Envelope) SetPayload(payload any) error {
 		return err
 	}
 
+	// Canonical JSON leaves control characters in strings as they are, which
+	// JSON does not allow. The payload must be a valid JSON document.
+	encodedBytes = escapeControlCharacters(encodedBytes)
+
 	e.payload = payload
 	e.envelope = &dsse.Envelope{
 		Payload:     base64.StdEncoding.EncodeToString(encodedBytes),
@@ -54,6 +58,32 @@ func (e *Envelope) SetPayload(payload any) error {
 	}
 
 	return nil
+}
+
+/*
+escapeControlCharacters replaces the control characters inside of the string
+literals of the passed canonical JSON by their JSON escape sequence. Canonical
+JSON that does not contain control characters is returned as it is.
+*/
+func escapeControlCharacters(canonicalBytes []byte) []byte {
+	const hexDigits = "0123456789abcdef"
+
+	escaped := make([]byte, 0, len(canonicalBytes))
+	for i := 0; i < len(canonicalBytes); i++ {
+		c := canonicalBytes[i]
+		switch {
+		case c == '\\' && i+1 < len(canonicalBytes):
+			// An escaped backslash or double quote, keep both characters
+			escaped = append(escaped, c, canonicalBytes[i+1])
+			i++
+		case c < 0x20:
+			// Control characters can only occur inside of string literals
+			escaped = append(escaped, '\\', 'u', '0', '0', hexDigits[c>>4], hexDigits[c&0xf])
+		default:
+			escaped = append(escaped, c)
+		}
+	}
+	return escaped
 }
 
 func (e *Envelope) GetPayload() any {
